@@ -76,3 +76,38 @@ def isAndCP (andC : Str) : Option Conj → Bool
   | some c => c.lemma == andC
 
 end Pyrealb.Coord
+
+/-! ### bare pronouns: the features a `Pro` terminal starts with (Terminal.setLemma) against its declension table -/
+namespace Pyrealb.Coord
+open Pyrealb Pyrealb.Gen.CoordConsts
+
+/-- the value every row of a column agrees on (`none`: the rows differ, or the column is absent) -/
+def uniform {α} [BEq α] : List (Option α) → Option α
+  | some v :: rest => if rest.all (fun x => x == some v) then some v else none
+  | _ => none
+
+def defaultsOf (lang : Str) : Str × Str × Nat := if lang = ['f', 'r'] then defaultFr else defaultEn
+
+/-- Terminal.setLemma: the person of a Pro is the one of its table when all rows agree on a person other than 3;
+    the entry's own `pe` overrides it; otherwise the default -/
+def effPe (e : ProEntry) : Nat :=
+  match e.pe with
+  | some p => p
+  | none => match uniform (e.rows.map (·.1)) with
+    | some p => if p ≠ 3 then p else (defaultsOf e.lang).2.2
+    | none => (defaultsOf e.lang).2.2
+
+def effN (e : ProEntry) : Str := e.n.getD (defaultsOf e.lang).2.1
+def effG (e : ProEntry) : Str := e.g.getD (defaultsOf e.lang).1
+
+/-- when the whole declension table of a pronoun has ONE person / number / gender (tonic forms: eux, them, nous …),
+    the bare pronoun denotes it: the features the terminal starts with — those `findGenderNumberPerson` reads —
+    must say the same (`x` in the table = unspecified) -/
+def consistentPe (e : ProEntry) : Bool :=
+  match uniform (e.rows.map (·.1)) with | some v => effPe e == v | none => true
+def consistentN (e : ProEntry) : Bool :=
+  match uniform (e.rows.map (·.2.1)) with | some v => v == ['x'] || effN e == v | none => true
+def consistentG (e : ProEntry) : Bool :=
+  match uniform (e.rows.map (·.2.2)) with | some v => v == ['x'] || effG e == v | none => true
+
+end Pyrealb.Coord
